@@ -226,6 +226,51 @@ STDOUT_DISPATCHER = FileThreadDispatcher(default=sys.stdout)
 STDERR_DISPATCHER = FileThreadDispatcher(default=sys.stderr)
 
 
+class _SharedRedirect:
+    """Installs a thread dispatcher as ``sys.stdout`` / ``sys.stderr`` for as
+    long as at least one proxy thread is running its alias.
+
+    The standard streams are process-global.  A per-thread save/restore
+    (``redirect_stdout``) goes wrong as soon as two alias threads overlap and
+    do not finish in LIFO order: the dispatcher stays installed for good, a
+    sibling picks it up as "the real stream", and the cleanup of one thread
+    closes the real stream of the session.  So the first thread in saves the
+    stream and the last one out restores it.
+    """
+
+    def __init__(self, stream, dispatcher):
+        self._stream = stream
+        self._dispatcher = dispatcher
+        self._lock = threading.Lock()
+        self._count = 0
+        self._saved = None
+
+    def current(self):
+        """The stream behind the dispatcher: ``sys.<stream>`` as it is, or as
+        it will be again once the running proxy threads have finished."""
+        with self._lock:
+            return self._saved if self._count else getattr(sys, self._stream)
+
+    def __enter__(self):
+        with self._lock:
+            if self._count == 0:
+                self._saved = getattr(sys, self._stream)
+                setattr(sys, self._stream, self._dispatcher)
+            self._count += 1
+        return self._dispatcher
+
+    def __exit__(self, exctype, excinst, exctb):
+        with self._lock:
+            self._count -= 1
+            if self._count == 0:
+                setattr(sys, self._stream, self._saved)
+                self._saved = None
+
+
+_STDOUT_REDIRECT = _SharedRedirect("stdout", STDOUT_DISPATCHER)
+_STDERR_REDIRECT = _SharedRedirect("stderr", STDERR_DISPATCHER)
+
+
 def parse_proxy_return(r, stdout, stderr):
     """Proxies may return a variety of outputs. This handles them generally.
 
@@ -429,12 +474,14 @@ class ProcProxyThread(threading.Thread):
         else:
             sp_stdin = sys.stdin
         # stdout
+        own_handles = []  # wrappers opened here; the session's streams are not ours to close
         if self.c2pwrite != -1:
             sp_stdout = io.TextIOWrapper(
                 open(self.c2pwrite, "wb", -1, closefd=False), encoding=enc, errors=err
             )
+            own_handles.append(sp_stdout)
         else:
-            sp_stdout = sys.stdout
+            sp_stdout = _STDOUT_REDIRECT.current()
         # stderr
         if self.errwrite != -1 and self.errwrite == self.c2pwrite:
             # stderr was redirected into stdout (e>o)
@@ -443,8 +490,9 @@ class ProcProxyThread(threading.Thread):
             sp_stderr = io.TextIOWrapper(
                 open(self.errwrite, "wb", -1, closefd=False), encoding=enc, errors=err
             )
+            own_handles.append(sp_stderr)
         else:
-            sp_stderr = sys.stderr
+            sp_stderr = _STDERR_REDIRECT.current()
         # run the function itself
         try:
             alias_stack = XSH.env.get("__ALIAS_STACK", "")
@@ -455,8 +503,8 @@ class ProcProxyThread(threading.Thread):
             with (
                 STDOUT_DISPATCHER.register(sp_stdout),
                 STDERR_DISPATCHER.register(sp_stderr),
-                xt.redirect_stdout(STDOUT_DISPATCHER),
-                xt.redirect_stderr(STDERR_DISPATCHER),
+                _STDOUT_REDIRECT,
+                _STDERR_REDIRECT,
                 XSH.env.swap(self.env, overlay=alias_env, __ALIAS_STACK=alias_stack),
             ):
                 r = run_with_partial_args(
@@ -505,8 +553,8 @@ class ProcProxyThread(threading.Thread):
             if not last_in_pipeline:
                 # Close wrappers before closing raw fds to avoid
                 # "Bad file descriptor" on finalization in Python 3.14+.
-                safe_fdclose(sp_stdout)
-                safe_fdclose(sp_stderr)
+                for handle in own_handles:
+                    safe_fdclose(handle)
                 # Close write ends via PipeChannel to signal EOF to downstream
                 for ch in spec.pipe_channels:
                     ch.close_writer()
@@ -516,7 +564,7 @@ class ProcProxyThread(threading.Thread):
                     self._stderr_pipe.close_writer()
                 return
             # clean up
-            for handle in (sp_stdout, sp_stderr):
+            for handle in own_handles:
                 safe_fdclose(handle, cache=self._closed_handle_cache)
             # Close write ends via PipeChannel to signal EOF to readers
             for ch in spec.pipe_channels:
